@@ -1,5 +1,7 @@
 package mlrval
 
+import "strconv"
+
 // Added to the build through the overlay only (never present in /repo).
 
 // VerifResetGlobals puts the process-wide switches that command-line flags
@@ -13,3 +15,62 @@ func VerifResetGlobals() {
 
 // VerifHashThreshold exposes the lazily-hashed record threshold.
 func VerifHashThreshold() int { return mlrmapHashThreshold }
+
+// VerifDigest folds the content of a value into h without touching it (no inference, no formatting, no caching):
+// used by the schedule explorer to tell apart channel messages of different content.
+func (mv *Mlrval) VerifDigest(h uint64) uint64 {
+	const prime = 1099511628211
+	mixs := func(h uint64, s string) uint64 {
+		for i := 0; i < len(s); i++ {
+			h = (h ^ uint64(s[i])) * prime
+		}
+		return (h ^ 0xff) * prime
+	}
+	if mv == nil {
+		return mixs(h, "nil")
+	}
+	h = (h ^ uint64(uint8(mv.mvtype))) * prime
+	if mv.printrepValid {
+		h = mixs(h, mv.printrep)
+	}
+	switch x := mv.intf.(type) {
+	case nil:
+	case int64:
+		h = (h ^ uint64(x)) * prime
+	case float64:
+		h = mixs(h, strconv.FormatFloat(x, 'g', -1, 64))
+	case bool:
+		if x {
+			h = (h ^ 1) * prime
+		}
+	case string:
+		h = mixs(h, x)
+	case []byte:
+		h = mixs(h, string(x))
+	case *Mlrmap:
+		h = x.VerifDigest(h)
+	case []*Mlrval:
+		h = (h ^ uint64(len(x))) * prime
+		for _, e := range x {
+			h = e.VerifDigest(h)
+		}
+	default:
+		h = mixs(h, "other")
+	}
+	return h
+}
+
+func (m *Mlrmap) VerifDigest(h uint64) uint64 {
+	const prime = 1099511628211
+	if m == nil {
+		return (h ^ 0xfe) * prime
+	}
+	for pe := m.Head; pe != nil; pe = pe.Next {
+		for i := 0; i < len(pe.Key); i++ {
+			h = (h ^ uint64(pe.Key[i])) * prime
+		}
+		h = (h ^ 0xfd) * prime
+		h = pe.Value.VerifDigest(h)
+	}
+	return (h ^ 0xfc) * prime
+}
